@@ -1,4 +1,12 @@
 # C04 -- TRXD octets follow the protocol layout; Python and trxcon (C) agree.
+#
+# Layout of this module
+#   r1_python_vs_spec        structural rules for data_msg.py (layout descriptors vs spec/trxd.json)
+#   CMach                    closure compiler / evaluator for the C subset of trx_if.c's TRXD paths
+#   trxcon_rx/tx_semantic    decisive layer for trxcon: the functions evaluated on datagram families
+#   python_semantic          decisive layer for data_msg.py: gen_msg / parse_msg evaluated by rules/c16.Mach
+#   trxcon_rx/tx_structural  structural rules for trx_if.c (recorded as structural proofs)
+#   _group                   decision: semantic layer decides, structural proof recorded; fallback if not evaluable
 
 import ast
 import json
@@ -1547,15 +1555,6 @@ def trxcon_tx_semantic(L, repo, spec, tier, tu):
     ext2 = min(exts) if exts else None
     L.ob("C04.R4", FC, fn_, "trxcon's transmit buffer holds header + the largest burst (%d)" % largest_tx,
          ">= %d" % largest_tx, ext2, ext2 is not None and ext2 >= largest_tx)
-    # Python receive size
-    ci, rr = repo.need_method("data_if", "DATAInterface", "recv_raw_data")
-    L.unit(rel("data_if"))
-    sizes = []
-    for c in calls_in(rr):
-        if canon(c.func).endswith(".recvfrom"):
-            sizes.append(Ev(repo, repo.mod("data_if"), self_cls=ci).ev(c.args[0]))
-    L.ob("C04.R4", rel("data_if"), "DATAInterface.recv_raw_data", "the toolkit's data socket receive size holds trxcon's largest datagram (%d octets)" % largest_tx,
-         ">= %d" % largest_tx, sizes, len(sizes) == 1 and sizes[0] >= largest_tx)
     L.extra["c04_tx_runs"] = cnt[0]
 
 
@@ -2039,8 +2038,10 @@ def r4_python_recv(L, repo, spec):
     for c in calls_in(rr):
         if canon(c.func).endswith(".recvfrom"):
             sizes.append(Ev(repo, repo.mod("data_if"), self_cls=ci).ev(c.args[0]))
+    if not sizes or not all(isinstance(x, int) for x in sizes):
+        raise AnalysisError("DATAInterface.recv_raw_data: receive size of the data socket not found / does not fold (%s)" % sizes)
     L.ob("C04.R4", rel("data_if"), "DATAInterface.recv_raw_data", "the toolkit's data socket receive size holds trxcon's largest datagram (%d octets)" % largest_tx,
-         ">= %d" % largest_tx, sizes, len(sizes) == 1 and sizes[0] >= largest_tx)
+         ">= %d" % largest_tx, sizes, all(x >= largest_tx for x in sizes))
 
 
 def _group(L, rule, file, what, semantic, structural):
